@@ -61,13 +61,18 @@ GzWire(g, fr, tail) ==
    close of the connection ("close") *)
 RespHead == <<72, 84, 84, 80, 47, 49, 46, 49, 32, 50, 48, 48, 32, 79, 75, 13, 10>>                     \* "HTTP/1.1 200 OK"
             \o <<67, 111, 110, 116, 101, 110, 116, 45, 69, 110, 99, 111, 100, 105, 110, 103, 58, 32, 103, 122, 105, 112, 13, 10>>
-GzRespWire(g, fr, drop) ==
-    LET enc == SubSeq(GzTable[g].enc, 1, Len(GzTable[g].enc) - drop)
-        h == Len(enc) \div 2 IN
+GzRespFramed(enc, fr) ==
+    LET h == Len(enc) \div 2 IN
     IF fr = "cl" THEN RespHead \o ClLine(Len(enc)) \o CRLF \o enc
     ELSE IF fr = "close" THEN RespHead \o CRLF \o enc
+    ELSE IF h = 0 THEN RespHead \o TeLine \o CRLF \o HexStr(Len(enc)) \o CRLF \o enc \o CRLF \o <<48>> \o CRLF \o CRLF
     ELSE RespHead \o TeLine \o CRLF \o HexStr(h) \o CRLF \o SubSeq(enc, 1, h) \o CRLF
          \o HexStr(Len(enc) - h) \o CRLF \o SubSeq(enc, h + 1, Len(enc)) \o CRLF \o <<48>> \o CRLF \o CRLF
+GzRespWire(g, fr, drop) == GzRespFramed(SubSeq(GzTable[g].enc, 1, Len(GzTable[g].enc) - drop), fr)
+(* only the first `keep` bytes of the member (very early truncation: inside the gzip header, before the
+   inflater has produced anything) *)
+GzRespWireK(g, fr, keep) ==
+    LET n == Len(GzTable[g].enc) IN GzRespFramed(SubSeq(GzTable[g].enc, 1, IF keep < n THEN keep ELSE n - 1), fr)
 
 BaseCfg == [mode |-> "server", maxHdr |-> 65536, maxBody |-> 1000000, override |-> None, decompress |-> FALSE,
             gz |-> <<>>, head |-> FALSE, respond |-> "sync", btimeout |-> FALSE, shut |-> FALSE]
